@@ -71,8 +71,74 @@ fn ps_err(e: &str) -> String {
     }
 }
 
+/// seeded octet string, the same generator as in ocaml/C15_driver.ml (odd seeds: lower-case letters)
+fn gen(seed: u64, len: usize) -> Vec<u8> {
+    let mut x = seed.wrapping_mul(0x9E3779B97F4A7C15) ^ 0xD1B54A32D192ED03;
+    (0..len)
+        .map(|_| {
+            x = x.wrapping_mul(6364136223846793005).wrapping_add(1442695040888963407);
+            let b = (x >> 56) as u8;
+            if seed & 1 == 1 {
+                97 + b % 26
+            } else {
+                b
+            }
+        })
+        .collect()
+}
+
+fn fnv_bytes(b: &[u8]) -> u64 {
+    let mut h = 0xcbf29ce484222325u64;
+    for x in b {
+        h ^= *x as u64;
+        h = h.wrapping_mul(0x100000001b3);
+    }
+    h
+}
+
 fn main() {
     run_lines(|ws| match ws {
+        // large seeded strings, results as digests
+        ["he.big", len, seed] => {
+            let s = gen(seed.parse().unwrap(), len.parse().unwrap());
+            match huffman_encode(&s) {
+                Ok(e) => format!("ok elen={} h={:016x}", e.len(), fnv_bytes(&e)),
+                Err(_) => "err".to_string(),
+            }
+        }
+        ["hd.big", len, seed] => {
+            let s = gen(seed.parse().unwrap(), len.parse().unwrap());
+            match huffman_encode(&s) {
+                Ok(e) => match huffman_decode(&e) {
+                    Ok(d) => format!("ok dlen={} h={:016x}", d.len(), fnv_bytes(&d)),
+                    Err(e) => huff_err(&e).to_string(),
+                },
+                Err(_) => "err".to_string(),
+            }
+        }
+        ["ps.rt", size, len, seed] => {
+            let size: u8 = size.parse().unwrap();
+            let s = gen(seed.parse().unwrap(), len.parse().unwrap());
+            let mut enc = Vec::new();
+            if prefix_string_encode(size, 0, &s, &mut enc).is_err() {
+                return "err encode".to_string();
+            }
+            let elen = enc.len();
+            let he = fnv_bytes(&enc);
+            enc.extend_from_slice(b"zz");
+            let mut buf: &[u8] = &enc;
+            match prefix_string_decode(size, &mut buf) {
+                Ok(v) => format!(
+                    "ok elen={} h={:016x} dlen={} hd={:016x} rest={}",
+                    elen,
+                    he,
+                    v.len(),
+                    fnv_bytes(&v),
+                    hex(buf)
+                ),
+                Err(e) => ps_err(&e),
+            }
+        }
         // chunked variants: the decoders are generic over `B: Buf`
         ["pi.decc", size, spec] => {
             let size: u8 = size.parse().unwrap();
